@@ -12,7 +12,7 @@ for name in sorted(res):
     if "checks" not in r:
         continue
     cs = ", ".join("%s: exit %s, %ss" % (k, v["exit"], v["wall"]) for k, v in sorted(r["checks"].items()))
-    rows.append("| %s | %s | %s | %s |" % (name, "yes" if r.get("baseline_passes") else "no (already caught by unit tests)", cs, r.get("status")))
+    rows.append("| %s | %s | %s | %s |" % (name, "yes" if r.get("baseline_passes") else "no (already caught by unit tests)", cs, "equivalent mutant (behaviour unchanged; kept for the record)" if "equivalent" in name else r.get("status")))
 caught = sum(1 for r in res.values() if r.get("status") == "caught")
 rows.append("")
 rows.append("%d of %d mutants caught by at least one owning check (quick tier). A mutant listed for several properties is run against each of them." % (caught, sum(1 for r in res.values() if "checks" in r)))
